@@ -28,6 +28,8 @@ class Knobs:
         self.p_endpoint = 0.6
         self.max_nodes = 400
         self.p_text_tail = 0.12
+        self.huge_buf = 0
+        self.many = 0
         if rng is not None:
             self.max_buf = rng.choice((0, 1, 2, 4, 8, 8, 16, 32, 70))
             self.max_list = rng.choice((0, 1, 1, 2, 2, 3, 5))
@@ -38,6 +40,9 @@ class Knobs:
             self.p_enc = rng.choice((0.0, 0.3, 0.7, 1.0))
             self.p_fail = rng.choice((0.0, 0.1, 0.3, 0.6))
             self.p_endpoint = rng.choice((0.2, 0.6, 0.9))
+            # rare magnitudes: one buffer beyond the signed 16-bit range / several kB, one list with hundreds of elements
+            self.huge_buf = rng.choice((4096, 4097, 5000, 8192, 32767, 32768, 33000)) if rng.random() < 0.003 else 0
+            self.many = rng.choice((16, 17, 64, 255, 256, 257, 300)) if rng.random() < 0.004 else 0
         for k, v in kw.items():
             setattr(self, k, v)
 
@@ -62,6 +67,9 @@ class Gen:
         self.L = lay or layout()
         self.nodes = 0
         self.arms = []       # (union type, member) chosen - coverage probe
+        self.used_huge = False
+        self.used_many = False
+        self.allow_huge = False
 
     # -- primitives --
     def value(self, tname):
@@ -90,6 +98,9 @@ class Gen:
 
     def buf_size(self):
         rng = self.rng
+        if self.allow_huge and self.k.huge_buf and not self.used_huge:
+            self.used_huge = True
+            return self.k.huge_buf
         r = rng.random()
         if r < self.k.p_big_buf:
             return rng.choice((255, 256, 257, 300))
@@ -113,8 +124,11 @@ class Gen:
             return self.union(t, selector, depth)
         return self.struct(t, depth=depth)
 
-    def list_count(self, count_type, depth):
+    def list_count(self, count_type, depth, elem=None):
         lo_hi = self.L.types[count_type]["valid"]
+        if self.allow_huge and self.k.many and not self.used_many and elem is not None and self.L.is_prim(elem) and self.L.valid(count_type, self.k.many):
+            self.used_many = True
+            return self.k.many
         limit = self.k.max_list
         if self.nodes > self.k.max_nodes or depth > 6:
             limit = 0
@@ -141,7 +155,7 @@ class Gen:
             if isinstance(ft, dict):
                 # counted list: the count is the preceding primitive, already generated -> patch it
                 ctype = fl[i - 1]["type"]
-                c = self.list_count(ctype, depth)
+                c = self.list_count(ctype, depth, ft["list"])
                 out[-1] = (fl[i - 1]["name"], ("prim", ctype, c))
                 vals[fl[i - 1]["name"]] = c
                 n = self.node(ft, count=c, depth=depth + 1)
